@@ -5,5 +5,5 @@ cd "$(dirname "$0")"
 export GOFLAGS=-mod=mod GOPROXY=off GOSUMDB=off GOTOOLCHAIN=local
 ( cd coq && coq_makefile -f _CoqProject -o Makefile >/dev/null && timeout 3000 make -j"$(nproc)" )
 ./ocaml/build.sh
-( cd harness && cp /repo/go.sum . && mkdir -p bin && go build -tags verif -o bin/fsdbh . )
+( cd harness && ./mkmod.sh && mkdir -p bin && go build -tags verif -o bin/fsdbh . )
 echo setup-ok
